@@ -508,7 +508,7 @@ def body(ctx, races, check):
 
 def run(ctx):
     hyp_run(ctx, 'c08.machine', case_strategy(False), body(ctx, False, 'c08.machine'),
-            ctx.pick(150, 3000))
+            ctx.pick(150, 15000))
 
 
 def replay(ctx, check, case):
